@@ -117,6 +117,8 @@ def merge_result(exe, out):
             ev.update({"del": ilist(d["del"]), "mod": ilist(d["mod"])})
         elif tag == "jadd":
             ev["r"] = int(d["r"])
+        elif tag == "mfd":
+            ev["r"] = int(d["r"])
         elif tag == "jfd":
             ev.update({"r": int(d["r"]), "refused": int(d["refused"])})
         elif tag == "jsec":
@@ -321,6 +323,10 @@ def rand_merge_exe(rng, real):
         size = st + sum(r[2] - r[1] for r in runs) + stuff
         steps.append(pay_step(st, di, dr, ptr, runs, stuff, rand_segs(rng, size)))
         pdisc = 1 if dr else 0
+        if rng.chance(1, 6):
+            # the upstream sends its flow definition again (an attribute changed, or its output was set again):
+            # not data - the section being assembled goes on
+            steps.append({"cmd": "mfd %d" % rng.choice([0, 0, 27000]), "ev": {"e": "MFd"}})
     return Exe("merge", secs, steps, "random real" if real else "random small",
                reset={"mid": mid, "maxpay": maxpay})
 
@@ -659,7 +665,7 @@ def verdict_key(ctx, exe, line, invs):
             if miss:
                 k = miss[0]
                 for st in exe.steps:
-                    r = st["ev"]["runs"]
+                    r = st["ev"].get("runs", [])
                     if any(x[0] == k and x[2] == exe.secs[k - 1][0] for x in r):
                         return "%s;section lost;%s" % (pipe, shape(st["ev"], exe.secs)), \
                             {"missing_sections": miss, "completed_in": st["ev"]}
